@@ -29,8 +29,16 @@ def run_property(prop, tier, replay=None, src=None):
     if tier == "thorough" and hasattr(mod, "run_thorough"):
         mod.run_thorough(ctx)
     if tier == "thorough" and src is None and replay is None:
+        # the evaluator the cell rules rely on must agree with CPython on its own snippet table (tests the analyser, not the repository)
+        from .selftest import engine_tiny
+        n_eng, bad_eng = engine_tiny.run()
+        print(f"[{prop}] engine self-test: cell evaluator agrees with CPython on {n_eng - len(bad_eng)}/{n_eng} snippet cases")
+        if bad_eng:
+            raise AnalysisError(f"cell evaluator disagrees with CPython: {bad_eng[:2]}")
         from . import selftest
         st = selftest.run(prop, program.src)
+        if st is not None:
+            st["engine_selftest"] = {"snippet_cases": n_eng, "disagreements": len(bad_eng)}
         ctx.selftest = st
         if st is not None:
             for r in st["failed"]:
